@@ -19,9 +19,10 @@ EXPLANATION = (
     "skeletons, regenerated data and the HTML correspondence run of this check) the induction over the token tree is carried "
     "out: for every document the output is a string of a balanced-tag grammar - text without < > and double-quote, elements "
     "<name attrs>body</name> with body in the grammar, void elements, attribute values free of the three characters - in "
-    "which p, h1-h6, pre, a, em, strong and code contain phrasing elements only (C06_whole_document_is_well_nested), and every "
-    "string of that grammar returns the context reader to character data. NOT proved: plugin and directive tokens at tree "
-    "level, the Markdown and RST renderers, and two-step = one-step; these clauses are decided by the oracle: strict HTML "
+    "which p, h1-h6, pre, a, em, strong, code - and del, mark, ins, sup, sub of the modelled inline plugins - contain phrasing "
+    "elements only (C06_whole_document_is_well_nested; core, and core plus strikethrough, mark, insert, superscript, subscript, "
+    "url), and every string of that grammar returns the context reader to character data. NOT proved: the other plugin and "
+    "directive tokens at tree level, the Markdown and RST renderers, and two-step = one-step; these clauses are decided by the oracle: strict HTML "
     "nesting check, ordered search of every escaped leaf, per-line search of leaves in Markdown/RST output, and comparison "
     "of rendering a renderer-less token list with direct conversion.")
 ASSUMPTIONS = ["the leaf/inline classification of token types is part of the statement (this file and coq/Props/C06.v)"]
